@@ -4,6 +4,7 @@ From PV Require Import Lib.Bytes Model.Autofix.
    the oracle only offers the save protocol of the model for inspection *)
 Definition save_paths (autofix : bool) (file : str) (modified : bool) : list str :=
   let l := Line file 1 [[97;10]%N] [97%N] (Some (Fix [] [[98;10]%N] [] modified [] false [])) in
-  map (fun o => match o with OpWrite p _ => p | OpRename _ p => p | OpChmod p => p end)
+  map (fun o => match o with OpCreateExcl p => p | OpWrite p _ => p | OpChmodLike p _ => p
+                           | OpRename _ p => p | OpRemove p => p | OpChmod p => p end)
       (fst (save (Opts autofix false []) [l])).
 Extraction "C02_model.ml" save_paths Z.of_N Nat.add.
